@@ -286,6 +286,14 @@ func keyHash(k string) [16]byte {
 
 func maxEvals(r int) int { return 20 * r }
 
+// capEvals: the evaluation cap of a case under bounds b.
+func capEvals(b Bounds) int {
+	if b.MaxEvals > 0 {
+		return b.MaxEvals
+	}
+	return maxEvals(b.R)
+}
+
 type workerState struct {
 	sampleBest  int
 	visited     map[[16]byte]uint8
@@ -478,7 +486,7 @@ func (ws *workerState) expand(rq *request, rp *response, s *State, key string, i
 			continue
 		}
 		progress.begin(key, false, i)
-		res, err := evalCase(s, e, true, rq.B.R, maxEvals(rq.B.R), nil)
+		res, err := evalCase(s, e, true, rq.B.R, capEvals(rq.B), nil)
 		if err != nil {
 			rp.Err = err.Error()
 			return
@@ -537,7 +545,7 @@ func (ws *workerState) dfs(rq *request, rp *response, s *State, level, depthLeft
 			return
 		}
 		progress.begin(rawKey, true, i)
-		res, err := evalCase(s, e, false, rq.B.R, maxEvals(rq.B.R), nil)
+		res, err := evalCase(s, e, false, rq.B.R, capEvals(rq.B), nil)
 		if err != nil {
 			rp.Err = err.Error()
 			return
